@@ -220,7 +220,18 @@ def _sig_blank_lines_settle(case: dict, f: Failure) -> bool:
     return True
 
 
+def _sig_hardbreak_in_setext(case: dict, f: Failure) -> bool:
+    """Same root cause as C01's finding of this name: the input has a setext heading containing a hard line break."""
+    from vf import canon
+    from vf.props import c01
+
+    if case.get("kind", "md") != "md" or case["opts"].get("plaintext"):
+        return False
+    return c01._has_heading_with_br(canon.canon_in(case["text"])[1])
+
+
 SIGS = {
+    "hardbreak_in_setext_heading": _sig_hardbreak_in_setext,
     "blank_lines_settle_on_second_run": _sig_blank_lines_settle,
     "tight_list_flips_loose": _sig_tight_list_flips,
     "period_escape_after_markup": _sig_period_escape,
